@@ -222,3 +222,21 @@ Example plain_dir_nontrivial :
   p_dir (plain_pexec plain_create [PX (XO (MPut [1;2])); PX (XO (MBatch [[3]; [4;4]])); PX (XO (MRemove 2))])
   = [([51], [4;4]); ([49], [1;2])].
 Proof. vm_compute. reflexivity. Qed.
+
+(* the 32-bit counter wraps (AtomicU32::fetch_add): a directory that already holds a file named 4294967294 next to record 1 -
+   the third put after opening it returns id 1 and replaces the live record (rename replaces an existing file); and a file
+   named 4294967295 makes new() overflow in `max_id + 1` *)
+Lemma plain_wrap_overwrites :
+  exists m st0, NoDup (dnames m) /\ canonical W32 m /\ plain_open m = Some st0 /\
+    let '(st1, _) := plain_put st0 [7] in let '(st2, _) := plain_put st1 [8] in let '(st3, id3) := plain_put st2 [9] in
+    id3 = Some 1 /\ snd (plain_get st0 1) = Some [1] /\ snd (plain_get st3 1) = Some [9].
+Proof.
+  exists [(render 1, [1]); (render 4294967294, [2])]. eexists. split; [|split; [|split]].
+  - cbn [dnames map fst]. apply NoDup_cons; [intros [H|[]]; vm_compute in H; discriminate|].
+    apply NoDup_cons; [intros []|apply NoDup_nil].
+  - intros k v [H|[H|[]]]; inversion H; subst; eexists; (split; [reflexivity|unfold W32; lia]).
+  - vm_compute. reflexivity.
+  - vm_compute. repeat split; reflexivity.
+Qed.
+Lemma plain_open_overflow : plain_open [(render 4294967295, [])] = None.
+Proof. vm_compute. reflexivity. Qed.
